@@ -38,6 +38,7 @@ func (c07) Assumptions() []string {
 
 func (c07) Gates(tier string, m map[string]int64) []rt.Gate {
 	return []rt.Gate{
+		rt.GateMin("stores of floats that differ in their last digits", m, "close_float_store", 100),
 		rt.GateMin("a later field repeating the name of a sort key", m, "duplicate_name_of_a_sort_key", 50),
 		rt.GateMin("ORDER BY naming the same column twice", m, "repeated_order_column", 20),
 		rt.GateMin("sort keys defined through another select field", m, "alias_defined_sort_key", 50),
@@ -106,9 +107,25 @@ func (k c07) Run(c *rt.Ctx) {
 		c.Rec.Inc("bigint_store")
 		bigint = true
 	}
+	closeF := false
+	if !bigint && r.Chance(1, 12) {
+		// floats that differ in their last digits only (no tolerance applies to a sort)
+		vals := []string{"1.0000000001", "1.0000000002", "1.00000000015", "0.30000000000000004", "0.3", "1.0", "0.29999999999", "2.5", "1.0000000001"}
+		n := r.Range(4, 12)
+		var ps []refstore.Pair
+		for i := 0; i < n; i++ {
+			ps = append(ps, refstore.Pair{K: fmt.Sprintf("k%02d", i), V: vals[r.Intn(len(vals))]})
+		}
+		st = &gen.Store{Family: gen.FFloat, Pairs: ps}
+		c.Rec.Inc("close_float_store")
+		closeF = true
+	}
 	stmt := &gen.Stmt{Kind: "select"}
 	var fields []c07Field
 	aggregate := r.Chance(1, 4)
+	if closeF {
+		aggregate = false
+	}
 	if aggregate {
 		// group by one or two expressions; order by aggregates / group keys
 		gpool := []c07Field{{gen.Value(), "g0", 'S'}, {gen.Call("strlen", gen.Key()), "g1", 'N'}, {gen.Call("upper", gen.Value()), "g2", 'S'}, {gen.Call("is_int", gen.Value()), "g3", 'B'}, {gen.Call("strlen", gen.Value()), "g4", 'N'}}
@@ -224,6 +241,15 @@ func (k c07) Run(c *rt.Ctx) {
 			seen[f.name] = true
 			desc := r.Bool()
 			stmt.OrderBy = append(stmt.OrderBy, gen.OrderItem{Name: f.name, Desc: desc, Bare: !desc && r.Bool()})
+		}
+	}
+	if closeF {
+		f := c07Field{gen.Call("float", gen.Value()), "cf", 'N'}
+		fields = append(fields, f)
+		stmt.Fields = append(stmt.Fields, gen.Field{E: f.e, Alias: f.name})
+		stmt.OrderBy = append([]gen.OrderItem{{Name: "cf", Desc: r.Bool()}}, stmt.OrderBy...)
+		if len(stmt.OrderBy) > 3 {
+			stmt.OrderBy = stmt.OrderBy[:3]
 		}
 	}
 	if bigint && !aggregate {
